@@ -364,6 +364,75 @@ def recover_order(func):
     return n_swaps
 
 
+def callee_info(repo, f):
+    """call node -> (positional parameter names of the package callee, 1 when `self` is bound implicitly) or None."""
+    def info(call):
+        try:
+            g = repo.resolve_call(call, f)
+        except Exception:
+            return None
+        if g is None:
+            return None
+        a = g.node.args
+        if a.vararg is not None or a.posonlyargs:
+            return None
+        params = [x.arg for x in a.args]
+        offset = 0
+        if g.cls is not None:
+            deco = {getattr(d, 'id', getattr(d, 'attr', None)) for d in g.node.decorator_list}
+            if 'staticmethod' in deco:
+                offset = 0
+            elif isinstance(call.func, ast.Attribute) and isinstance(call.func.value, ast.Name) and call.func.value.id == g.cls.name \
+                    and 'classmethod' not in deco:
+                offset = 0
+            else:
+                offset = 1
+        return params, offset
+    return info
+
+
+def reference_node(entry):
+    """The reference spelling of a function as an AST with the reference tree's line numbers (entry = [lineno, text])."""
+    import textwrap
+    from .loader import _canonical_idioms
+    lineno, text = entry
+    if text[:1] in ' \t':                        # methods are stored with their indentation
+        tree = ast.parse('if 1:\n' + text)
+        _canonical_idioms(tree)
+        node = tree.body[0].body[0]
+        ast.increment_lineno(node, lineno - 2)
+    else:
+        tree = ast.parse(text)
+        _canonical_idioms(tree)
+        node = tree.body[0]
+        ast.increment_lineno(node, lineno - 1)
+    return node
+
+
+def _substitute_reference(repo, f, entry):
+    """If the function is a respelling of the reference (equal normal forms, pydlsa/normal.py) analyse the reference spelling
+    in its place.  Returns True when substituted."""
+    if not entry:
+        return False
+    from . import normal
+    try:
+        rnode = reference_node(entry)
+        if not isinstance(rnode, (ast.FunctionDef, ast.AsyncFunctionDef)):
+            return False
+        info = callee_info(repo, f)
+        if normal.nf_key(f.node, info) != normal.nf_key(rnode, info):
+            return False
+    except (SyntaxError, RecursionError):
+        return False
+    link_parents(rnode)
+    rnode._parent = getattr(f.node, '_parent', None)
+    f.node = rnode
+    for x in ast.walk(rnode):
+        x._func = f
+    f.roles = dict(getattr(f, 'roles', {}) or {}, respelling_of_reference=True)
+    return True
+
+
 def _evict(repo, m):
     """A module whose functions are about to be rewritten must not be shared through the loader's cache."""
     from . import loader
@@ -386,6 +455,8 @@ def apply_tables(repo):
             if dg is not None and dg == hashlib.sha256(ast.dump(f.node, include_attributes=False).encode()).hexdigest()[:16]:
                 continue          # identical to the reference: nothing to undo
             _evict(repo, m)
+            if _substitute_reference(repo, f, ref.get(key + '#src')):
+                continue
             n_sw = recover_order(f)
             back = recover_names(f)
             if back or n_sw:
